@@ -60,6 +60,20 @@ func (m *MessageCopyFromGenerator) GenerateFields(g *j.Group) {
 		g.Add(j.Id("obj." + m).Op("=").Nil())
 	}
 
+	// Reset nullable embedded messages for the same reason: their fields only allocate the embedded
+	// struct when they are set, so a value held by the target before the call would otherwise survive.
+	embedded := make(map[string]struct{})
+	for _, f := range m.Fields {
+		if !f.ParentIsOptionalEmbed {
+			continue
+		}
+		if _, ok := embedded[f.ParentIsOptionalEmbedFieldName]; ok {
+			continue
+		}
+		embedded[f.ParentIsOptionalEmbedFieldName] = struct{}{}
+		g.Add(j.Id("obj." + f.ParentIsOptionalEmbedFieldName).Op("=").Nil())
+	}
+
 	for _, f := range m.Fields {
 		g.Add(NewFieldCopyFromGenerator(f, m.i).Generate())
 	}
